@@ -173,6 +173,9 @@ def sources(ctx):
         if r is not None:
             out.append(('rnd%d' % i, r[0]))
     out += scopegen.random_programs(ctx.rng, ctx.scale(60, 1500))
+    out += scopegen.parameter_programs() + scopegen.declaration_programs() + scopegen.import_programs()
+    short = scopegen.short_named(sg[:ctx.scale(100, 2500)])
+    out += short
     return out
 
 
